@@ -660,6 +660,10 @@ func (ls *LState) raiseError(level int, format string, args ...interface{}) {
 }
 
 func (ls *LState) findLocal(frame *callFrame, no int) string {
+	if no < 1 {
+		// variables are numbered from 1; anything below would address the slots under the frame
+		return ""
+	}
 	fn := frame.Fn
 	if !fn.IsG {
 		if name, ok := fn.LocalName(no, frame.Pc-1); ok {
